@@ -410,6 +410,28 @@ class C05(Prop):
         for nme in ('a_fwd', 'a_bwd', 'a_up', 'a_down'):
             if nme in impl and not (0.0 <= impl[nme] <= 1.0):
                 out.append(('range', '%s = %r is not a probability' % (nme, impl[nme]), None))
+        if k == 'shift' and 'q_fwd_params' not in impl:
+            # the density of the proposal actually made (C06): truncated normals on the closed ranges, evaluated here from the definition
+            def tq(x, m, sd_, lo, hi):
+                pdf = math.exp(-0.5 * ((x - m) / sd_) ** 2) / (sd_ * math.sqrt(2 * math.pi))
+                cdf = lambda v: 0.5 * (1 + math.erf((v - m) / (sd_ * math.sqrt(2))))
+                return pdf / (cdf(hi) - cdf(lo))
+
+            def qof(x, x1):
+                w = case['w']
+                q = tq(x['h'], x1['h'], w['h'], 0.0, 1.0) * tq(x['sigma'], x1['sigma'], w['sigma'], -PI / 2, PI / 2)
+                if not case['dc']:
+                    q *= tq(x['gamma'], x1['gamma'], w['gamma'], -PI / 6, PI / 6) * tq(x['delta'], x1['delta'], w['delta'], -PI / 2, PI / 2)
+                return q
+            try:
+                for nme, a_, b_ in (('q_fwd', case['x'], case['xi']), ('q_bwd', case['xi'], case['x'])):
+                    ref = qof(a_, b_)
+                    if ref > 1e-280 and not close(impl[nme], ref, rtol=1e-6, atol=0.0):
+                        out.append(('proposal-density', 'transition_pdf gives %r for a move whose truncated-Gaussian proposal density (closed ranges, states on the boundary included) is %r: %r -> %r'
+                                    % (impl[nme], ref, b_, a_), None))
+                        break
+            except (OverflowError, ZeroDivisionError, ValueError):
+                pass
         if k in ('shift', 'multi'):
             if case['Lp'] == NEG_INF and impl['a_fwd'] != 0:
                 out.append(('zero-likelihood', 'zero-likelihood proposal has acceptance %r' % impl['a_fwd'], None))
